@@ -474,6 +474,14 @@ def str_method(eng, st, recv: V, name: str, args: list[Val], origin: str) -> Val
         f = d.fun("py_count", [smt.STR, smt.STR], smt.INT)
         eng.ensure_axioms("py_count")
         return V(INT, f(s, coerce(eng, args[0], STR).t))
+    if name == "partition" and len(args) == 1:
+        # (before, sep, after) at the first occurrence of sep, (s, "", "") when there is none
+        sep = coerce(eng, args[0], STR).t
+        eng.may_raise(st, Gt(Len(sep), IntVal(0)), "ValueError", origin)
+        i = smt.IndexOf(s, sep, IntVal(0))
+        found = Ge(i, IntVal(0))
+        return TupV([V(STR, Ite(found, Extract(s, IntVal(0), i), s)), V(STR, Ite(found, sep, StrVal(""))),
+                     V(STR, Ite(found, Extract(s, Add(i, Len(sep)), Len(s)), StrVal("")))])
     if name == "split" and len(args) in (1, 2):
         sep = coerce(eng, args[0], STR).t
         if len(args) == 2:
